@@ -72,7 +72,16 @@ def solve_one(ob, timeout_ms, axioms, known, out, replay_key, env):
                                                for k, x in ob.meta.items()})
     if v == "sat":
         rec["model"] = ob.model_text
-        rec["witness"] = extract_witness(ob.model, env) if env is not None and ob.model is not None else None
+        mdl = ob.model
+        try:
+            m2 = vcgen.refine_model(ob)
+            if m2 is not None:
+                mdl = m2
+                rec["model_refined"] = True
+        except Exception:
+            pass
+        rec["witness"] = extract_witness(mdl, env) if env is not None and mdl is not None else None
+        rec["replay_harness"] = replay_key.get("harness") if isinstance(replay_key, dict) else None
         # known-finding regions: re-solve with the region excluded
         for kf in known.get(ob.name, []):
             pass
@@ -88,17 +97,62 @@ def solve_one(ob, timeout_ms, axioms, known, out, replay_key, env):
     out["obligations"].append(rec)
 
 
+def _pyval(model, t, depth=0):
+    """z3 term -> JSON-friendly python value under the model (best effort)."""
+    from pyvc import vals as V
+    v = model.eval(t, model_completion=True)
+    srt = v.sort()
+    try:
+        if z3.is_int_value(v):
+            return v.as_long()
+        if z3.is_rational_value(v):
+            return {"q": "%s/%s" % (v.numerator_as_long(), v.denominator_as_long())}
+        if z3.is_true(v) or z3.is_false(v):
+            return z3.is_true(v)
+        if z3.is_string_value(v):
+            return v.as_string()
+        if isinstance(srt, z3.SeqSortRef) and depth < 4:
+            n = model.eval(z3.Length(t), model_completion=True)
+            if z3.is_int_value(n) and 0 <= n.as_long() <= 40:
+                return [_pyval(model, t[k], depth + 1) for k in range(n.as_long())]
+        if srt == V.OptI:
+            return None if z3.is_true(model.eval(V.OptI.is_NoneI(t), model_completion=True)) else _pyval(model, V.OptI.iv(t))
+        if srt == V.SliceDT:
+            return {"slice": [_pyval(model, V.SliceDT.sl_start(t)), _pyval(model, V.SliceDT.sl_stop(t)),
+                              _pyval(model, V.SliceDT.sl_step(t))]}
+        if srt == V.Val and depth < 4:
+            name = v.decl().name() if z3.is_app(v) else ""
+            m = {"VNone": lambda: None, "VInt": lambda: _pyval(model, V.Val.i(t)), "VReal": lambda: _pyval(model, V.Val.r(t)),
+                 "VBool": lambda: _pyval(model, V.Val.b(t)), "VStr": lambda: _pyval(model, V.Val.s(t)),
+                 "VBytes": lambda: {"bytes": _pyval(model, V.Val.bs(t))},
+                 "VSliceV": lambda: _pyval(model, V.Val.sl(t)), "VEllipsis": lambda: {"ellipsis": True},
+                 "VIntSeq": lambda: _pyval(model, V.Val.iseq(t), depth + 1),
+                 "VRealSeq": lambda: _pyval(model, V.Val.rseq(t), depth + 1),
+                 "VStrSeq": lambda: _pyval(model, V.Val.sseq(t), depth + 1),
+                 "VValSeq": lambda: {"tuple": _pyval(model, V.Val.vseq(t), depth + 1)},
+                 "VSliceSeq": lambda: _pyval(model, V.Val.slseq(t), depth + 1)}
+            if name in m:
+                return m[name]()
+    except Exception:
+        pass
+    return str(v)
+
+
 def extract_witness(model, env):
-    """Concrete values of the unit's parameters under the counter-model."""
+    """Concrete values of the unit's parameters and contract `let` names under the counter-model."""
     from pyvc import vals as V
     w = {}
     for nm, v in env.items():
         try:
-            if isinstance(v, (V.VInt, V.VReal, V.VBool, V.VStr, V.VSlice, V.VSeq, V.VDyn, V.VEnum, V.VObj)):
-                w[nm] = str(model.eval(v.t, model_completion=True))
-                if isinstance(v, V.VEnum):
-                    k = model.eval(v.t, model_completion=True).as_long()
-                    w[nm] = "%s.%s" % (v.name, V.ENUM_MEMBERS[v.name][k]) if 0 <= k < len(V.ENUM_MEMBERS[v.name]) else w[nm]
+            if isinstance(v, V.VEnum):
+                k = model.eval(v.t, model_completion=True).as_long()
+                w[nm] = "%s.%s" % (v.name, V.ENUM_MEMBERS[v.name][k]) if 0 <= k < len(V.ENUM_MEMBERS[v.name]) else k
+            elif isinstance(v, (V.VInt, V.VReal, V.VBool, V.VStr, V.VSlice, V.VSeq, V.VDyn, V.VObj)):
+                w[nm] = _pyval(model, v.t)
+            elif isinstance(v, V.VTuple):
+                w[nm] = [_pyval(model, x.t) if hasattr(x, "t") else str(x) for x in v.items]
+            elif isinstance(v, V.VNone):
+                w[nm] = None
         except Exception:
             pass
     return w
